@@ -84,6 +84,17 @@ func describeValS(v ssa.Value, d int, seenPhi map[ssa.Value]bool) string {
 	case *ssa.Slice:
 		return describeValS(x.X, d+1, seenPhi) + "[:]"
 	case *ssa.BinOp:
+		// x &^ K on a narrow unsigned type is x & ^K: the compiler folds `x &^ A &^ B` with constant A, B into the
+		// second form, a single `x &^ A` stays in the first
+		if x.Op == token.AND_NOT {
+			if k, ok := x.Y.(*ssa.Const); ok && k.Value != nil && k.Value.Kind() == constant.Int {
+				if m, okm := uintMax(x.Type()); okm {
+					if kv, okv := constant.Uint64Val(k.Value); okv {
+						return "(" + describeValS(x.X, d+1, seenPhi) + "&" + fmt.Sprint(m&^kv) + ")"
+					}
+				}
+			}
+		}
 		return "(" + describeValS(x.X, d+1, seenPhi) + x.Op.String() + describeValS(x.Y, d+1, seenPhi) + ")"
 	case *ssa.Call:
 		name := "?"
@@ -260,12 +271,57 @@ func condTokens(d string) []string { return condTokenRe.FindAllString(d, -1) }
 
 // pointMutation: "" unless b is a with one constant replaced, one field name replaced (by another existing field),
 // or the operands of the ordering swapped.
+// maskDropVariants: d with one "(…&N)" reduced to "…" (N a decimal constant), for every such term.
+func maskDropVariants(d string) []string {
+	var out []string
+	for i := 0; i < len(d); i++ {
+		if d[i] != '&' {
+			continue
+		}
+		j := i + 1
+		for j < len(d) && d[j] >= '0' && d[j] <= '9' {
+			j++
+		}
+		if j == i+1 || j >= len(d) || d[j] != ')' {
+			continue
+		}
+		// the matching open parenthesis
+		depth, k := 0, i-1
+		for ; k >= 0; k-- {
+			if d[k] == ')' {
+				depth++
+			} else if d[k] == '(' {
+				if depth == 0 {
+					break
+				}
+				depth--
+			}
+		}
+		if k < 0 {
+			continue
+		}
+		out = append(out, d[:k]+d[k+1:i]+d[j+1:])
+	}
+	return out
+}
+
 func pointMutation(a, b string, vocabulary map[string]bool) string {
 	if i := strings.Index(a, " <? "); i > 0 && a[i+4:]+" <? "+a[:i] == b {
 		return "boundary moved"
 	}
 	ta, tb := condTokens(a), condTokens(b)
 	if len(ta) != len(tb) {
+		// one constant mask term taken off (or put on) an operand: ((x&239)&223) became (x&239)
+		for _, v := range maskDropVariants(a) {
+			if v == b {
+				return "mask term dropped"
+			}
+		}
+		for _, v := range maskDropVariants(b) {
+			if v == a {
+				return "mask term added"
+			}
+		}
 		return ""
 	}
 	diff := -1
